@@ -257,30 +257,28 @@ class World:
     def host_view(self):
         """{abstract path tuple: content | "DIR" | "BROKEN"} of W/h, W/s and the decoy W/c, following links."""
         out = {}
-        seen = set()
+        import stat as S
 
-        def walk(path):
+        def walk(path, chain):
             try:
                 st = os.stat(path)
             except OSError:
                 out[tuple(self.abstract(path))] = "BROKEN"
                 return
-            import stat as S
             if S.S_ISDIR(st.st_mode):
-                key = (st.st_dev, st.st_ino, path.count("/"))
+                key = (st.st_dev, st.st_ino)
                 out[tuple(self.abstract(path))] = "DIR"
-                if len(path) > len(self.W) + 400 or key in seen:
+                if key in chain or len(chain) > 40:      # a link back to an ancestor
                     return
-                seen.add(key)
                 for n in sorted(os.listdir(path)):
-                    walk(os.path.join(path, n))
+                    walk(os.path.join(path, n), chain | {key})
             elif S.S_ISREG(st.st_mode):
                 with open(path, "rb") as f:
                     out[tuple(self.abstract(path))] = f.read(200).decode("utf-8", "replace").strip()
             else:
                 out[tuple(self.abstract(path))] = "SPECIAL"
         for region in ("h", "s", "c"):
-            walk(os.path.join(self.W, region))
+            walk(os.path.join(self.W, region), frozenset())
         return out
 
     def ctr_view(self, cid):
@@ -640,6 +638,36 @@ class Rig:
         ha, ca = self.snapshot()
         return {"exc": exc, "events": evs, "host": (hb, ha), "ctr": (cb, ca)}
 
+    def remove(self, host_paths, ctr_paths):
+        """Undo a copy: delete the given paths (abstract) on the host / through the container's view."""
+        w = self.world
+        for p in host_paths:
+            path = w.real(p)
+            if len(p) < 2 or not path.startswith(w.W + "/"):
+                continue
+            try:
+                if os.path.islink(path) or not os.path.isdir(path):
+                    os.unlink(path)
+                else:
+                    shutil.rmtree(path)
+            except FileNotFoundError:
+                pass
+        todo = [w.real(p) for p in ctr_paths if len(p) >= 2]
+        if todo and self.cid in w.running():
+            w.observer(self.cid).run("rm -rf -- " + " ".join("'%s'" % t for t in todo))
+
+    def restore(self, base_h, base_c):
+        """Bring both views back to the given snapshots by deleting what was added; True when that succeeded."""
+        for _ in range(3):
+            hv, cv = self.snapshot()
+            extra_h = [p for p in hv if p not in base_h]
+            extra_c = [p for p in cv if p not in base_c]
+            if not extra_h and not extra_c:
+                break
+            self.remove(_roots(extra_h), _roots(extra_c))
+        hv, cv = self.snapshot()
+        return hv == base_h and cv == base_c
+
     async def undeploy(self):
         start = len(self.world.events)
         _, exc = await self._guard(self.conn.undeploy(bool(self.env.get("ext"))))
@@ -653,6 +681,15 @@ class Rig:
                 await close_shells(self.inner)
         finally:
             self.world.close()
+
+
+def _roots(paths):
+    ps = sorted(set(tuple(p) for p in paths), key=len)
+    out = []
+    for p in ps:
+        if not any(p[:len(r)] == r for r in out):
+            out.append(p)
+    return out
 
 
 def decision_of(world: World, events):
